@@ -23,7 +23,15 @@ pub fn cfg_inputs(thorough: bool) -> Vec<Vec<u8>> {
         }
     }
     // a few encodings of the derived probe types and of typed values
-    for h in ["8205f6", "83051807", "a2000502f6", "bf0005ff", "820082f601", "82018118ff", "8200a0", "9f0005ff", "c18100", "d81845000102", "821b00000000ffffffff1a3b9ac9ff", "8201820102", "82624142f5", "a1616101", "bf616101ff", "8361610203"] {
+    for h in ["8205f6", "83051807", "a2000502f6", "bf0005ff", "820082f601", "82018118ff", "8200a0", "9f0005ff", "c18100", "d81845000102", "821b00000000ffffffff1a3b9ac9ff", "8201820102", "82624142f5", "a1616101", "bf616101ff", "8361610203",
+        // tagged derived probe types: right tags, wrong tags, missing tags
+        "c582c601d9012c02", "c582c601", "c482c601", "c582c701", "c58201", "c582c601d9012d02", "c582c601f6", "82c601d9012c02", "c1a100c107", "c1a10007", "c2a100c107", "a100c107", "8200c180", "820080", "8200c280", "8201c181c105", "8201c18105", "8201c281c105", "8201c181c205",
+        // nested / index-only / transparent probe types
+        "8300a2006161020582c601f6", "8303f6f6", "8305f6f6", "83f6a0c582c601d9012c02", "83f6a0c482c601", "820507", "03", "04",
+        // Cow probe types
+        "83616141ff6162", "837f616161ffff5f4101ff60", "6161", "7f6161ff", "836161f6f6",
+        // fixed-size arrays with too few / too many elements
+        "80", "8101", "820102", "83010203", "9f0102ff", "9f010203ff", "84f6f6f6f6"] {
         v.push(unhex(h));
     }
     v
